@@ -378,17 +378,38 @@ func UnHex(s string) []byte  { b, _ := hex.DecodeString(s); return b }
 
 // Guard runs f and converts a panic into (panicked=true, msg).
 func Guard(f func()) (panicked bool, msg string) {
+	p, m, _ := GuardSite(f)
+	return p, m
+}
+
+// GuardSite is Guard plus the name of the innermost library function on the panicking stack
+// (stable across line-number shifts; used in violation identities).
+func GuardSite(f func()) (panicked bool, msg, site string) {
 	defer func() {
 		if x := recover(); x != nil {
 			panicked = true
 			msg = fmt.Sprint(x)
-			buf := make([]byte, 2048)
+			buf := make([]byte, 8192)
 			n := runtime.Stack(buf, false)
-			msg += " @ " + topFrames(string(buf[:n]))
+			st := string(buf[:n])
+			msg += " @ " + topFrames(st)
+			site = panicSite(st)
 		}
 	}()
 	f()
 	return
+}
+
+func panicSite(st string) string {
+	for _, l := range strings.Split(st, "\n") {
+		if strings.HasPrefix(l, "github.com/go-i2p/") {
+			if i := strings.LastIndexByte(l, '('); i > 0 {
+				l = l[:i]
+			}
+			return strings.TrimPrefix(l, "github.com/go-i2p/common/")
+		}
+	}
+	return "unknown"
 }
 
 func topFrames(st string) string {
